@@ -144,10 +144,9 @@ func genLeaf(r *rand.Rand, res string, dates []int64, ntx int) leaf {
 		case 1:
 			return mkLeaf(pickCmp(r), "date", pickDate(r, dates))
 		default:
-			if r.Intn(15) == 0 {
-				// `$in` on the string field `type` passes validation, then panics in ConvertOperatorToSQL
-				// (finding C20/C38 `listLogs:panic`): kept rare so that the other log filters get exercised
-				return mkLeaf("$in", "type", []any{"NEW_TRANSACTION", "SET_METADATA"})
+			if r.Intn(3) == 0 {
+				// (before fix 127af08 this panicked in ConvertOperatorToSQL)
+				return mkLeaf("$in", "type", []any{gen.Pick(r, []string{"NEW_TRANSACTION", "DELETE_METADATA"}), "SET_METADATA"})
 			}
 			return mkLeaf("$match", "type", gen.Pick(r, []string{"NEW_TRANSACTION", "REVERTED_TRANSACTION", "SET_METADATA", "DELETE_METADATA", "INSERTED_SCHEMA"}))
 		}
